@@ -80,6 +80,34 @@ class C13Irrigation(Monitor):
             self.sched[pd.Timestamp(d.replace("/", "-"))] = float(x)
         self.cum = 0.0
         self.cur_season = None
+        # days that are outside every growing season BY CONFIGURATION: a season lasts from its planting date to the day before the
+        # latest harvest date (the user's, or planting + calendar length + 30 days for calendar crops; unknown for thermal crops)
+        self.windows = None
+        try:
+            import datetime as _dt
+            from .. import alphabets as _A
+            from .. import spec as _S
+
+            cs = ctx.spec["crop"]
+            pm, pdd = (int(x) for x in cs["planting"].split("/"))
+            s0, e0 = _S.parse_date(ctx.spec["start"]), _S.parse_date(ctx.spec["end"])
+            wins = []
+            for y in range(s0.year - 1, e0.year + 1):
+                p0 = _dt.datetime(y, pm, pdd)
+                if cs.get("harvest"):
+                    hm, hd = (int(x) for x in cs["harvest"].split("/"))
+                    h0 = _dt.datetime(y, hm, hd)
+                    if h0 <= p0:
+                        h0 = _dt.datetime(y + 1, hm, hd)
+                elif not cs["name"].endswith("GDD") and not (cs.get("kw") or {}).get("SwitchGDD") and not cs.get("gddscale"):
+                    h0 = p0 + _dt.timedelta(days=int(_A.crop_length_days(cs)) + 30)
+                else:
+                    wins = None
+                    break
+                wins.append((p0, h0))
+            self.windows = wins
+        except Exception:  # noqa: BLE001 - no configuration-derived calendar: the flag-based clauses remain
+            self.windows = None
 
     def _advance_stage(self, ctx, post):
         """Reference growth-stage automaton: time since sowing in the units of the crop calendar, minus the time during which the
@@ -116,6 +144,14 @@ class C13Irrigation(Monitor):
         ctx.evals += 1
         call, self.call = self.call, None
         infil_irr, self.infil_irr = self.infil_irr, None
+        if self.windows is not None and self.method != 4:
+            day = pd.Timestamp(pre.date).to_pydatetime()
+            if not any(p0 <= day < h0 for p0, h0 in self.windows):
+                ctx.hit("day_outside_every_configured_season")
+                if irr != 0 or post.gs:
+                    ctx.violate("no-irrigation-outside-season", t, observed={"date": str(day.date()), "IrrDay": irr, "reported_in_season": bool(post.gs)},
+                                expected="a day outside every planting date .. latest harvest date window is off-season and gets no water")
+                    return
         if not post.gs:
             if irr != 0:
                 ctx.violate("no-irrigation-outside-season", t, observed=irr, expected=0)
